@@ -330,7 +330,7 @@ fn run_stream(check: &Check, l: &Limits, frames: &[Frame], chunks: &[Vec<u8>], f
     }
     match catch(|| decode_rpcs(&p, chunks)) {
         Err(pn) => {
-            check.violation(format!("panic@{}", pn.site()), pn.msg.clone(), witness());
+            check.violation(format!("panic@{}", crate::util::short_site(&pn)), pn.msg.clone(), witness());
             check.case(s.0, true);
         }
         Ok(d) => {
@@ -451,6 +451,7 @@ pub fn run(args: &Args) -> i32 {
             run_stream(&check, &l, &frames, &cut(&stream, &[s1, s1 + 1]), "cut-at-frame-boundary");
         }
     });
-    check.note("exhaustive", json!({"two_splits_of_two_frame_streams": true, "general_chunkings": false}));
+    check.note("exhaustive", json!(false));
+    check.note("exhaustive_detail", json!({"two_splits_of_two_frame_streams": true, "general_chunkings": false}));
     check.finish()
 }
